@@ -302,4 +302,12 @@ def cases_for(topo, rng, budget, exhaustive=False):
             cases.append(dict(id=len(cases), op='alloc', tag=tag, **{'from': s}, cnt=c, prefer=p, flags=f))
             if rng.random() < (0.1 if exhaustive else 0.25) and c <= len(s):
                 cases.append(dict(id=len(cases), op='release', tag=tag, **{'from': s}, cnt=c, prefer=p, flags=f))
+    # outside the property's domain (the candidate set contains offline CPUs): used only to replay the
+    # C08_alloc_offline_refuted witness shape against the implementation and to compare with the model
+    off = sorted(topo['offline'])
+    if off and not exhaustive:
+        for k in range(6):
+            s = sorted(set(rng.sample(online, min(len(online), rng.randint(1, 4)))) | set(rng.sample(off, rng.randint(1, len(off)))))
+            for c in range(0, len(s) + 2):
+                cases.append(dict(id=len(cases), op='alloc', tag='ood-offline', **{'from': s}, cnt=c, prefer=rng.choice(PREFS), flags=-1))
     return cases
